@@ -42,7 +42,7 @@ func (e unsupported) Error() string { return e.msg }
 
 // Exec verifies one function.
 type Exec struct {
-	views      map[string]bool // element-memory references that are read-only views of arrays embedded in objects
+	views      map[string]*Ptr // element-memory references that are read-only views of arrays embedded in objects
 	closureOf  map[*ssa.Alloc]*ssa.MakeClosure // locals assigned a function literal exactly once
 	freeVars   map[string]bool // names of variables a closure captured by reference
 	paramTerms map[string]bool // interface-typed parameter values (their pointees existed at entry)
